@@ -662,14 +662,20 @@ func doReplay(path string) int {
 		}
 		useSched = true
 	}
-	j, out := simJob(c16sim.Command{Mode: "replay", In: path}, 1, 5*time.Minute)
-	drv.RunJob(j)
-	if j.ExitCode != 0 || j.TimedOut {
-		fatal("replay process failed: exit %d timed out %v\n%s", j.ExitCode, j.TimedOut, tail(j.Stderr))
-	}
 	var rr c16sim.ReplayResult
-	if err := drv.ReadJSON(out, &rr); err != nil {
-		fatal("%v", err)
+	// (a tool with goroutines of its own outside the scheduled leg need not misbehave on every execution)
+	for attempt := 0; attempt < 5 && !rr.Reproduced; attempt++ {
+		j, out := simJob(c16sim.Command{Mode: "replay", In: path}, 1, 5*time.Minute)
+		drv.RunJob(j)
+		if j.ExitCode != 0 || j.TimedOut {
+			fatal("replay process failed: exit %d timed out %v\n%s", j.ExitCode, j.TimedOut, tail(j.Stderr))
+		}
+		if err := drv.ReadJSON(out, &rr); err != nil {
+			fatal("%v", err)
+		}
+		if attempt > 0 && rr.Reproduced {
+			fmt.Printf("note: reproduced on attempt %d of 5: the tool is not deterministic\n", attempt+1)
+		}
 	}
 	fmt.Printf("replayed: input=%q\n  stdout=%q\n  reports=%d run returned %q\n", clipS(string(rf.Violation.Case.Input)), clipS(rr.Outcome.Stdout), rr.Outcome.Sink, rr.Outcome.RetErr)
 	if rr.Reproduced {
